@@ -93,7 +93,8 @@ def gen_rem(rng, kind, sub):
         elif k == "visit":
             c["ctx"][k] = rng.choice([1, 2, 10, 10**6, 10**20])
         elif k == "path":
-            c["ctx"][k] = hx(gitfmt.gen_bytes(rng, 0, 20, alphabet=b"/ab \n\xff."))
+            # (the empty path — the root — is a value, not an absence: one time in four)
+            c["ctx"][k] = "" if rng.random() < 0.25 else hx(gitfmt.gen_bytes(rng, 0, 20, alphabet=b"/ab \n\xff."))
         else:
             c["ctx"][k] = rh()
     return c
